@@ -146,6 +146,13 @@ fn hexs(b: &[u8]) -> String {
     s
 }
 
+/// Every simulated writer is handed to `encode` behind `&mut dyn BufMut` (bytes implements
+/// `BufMut for &mut T where T: ?Sized`), so that each generated `encode` is instantiated once
+/// instead of once per writer type: the calls reach the same writer methods through the vtable.
+fn enc<T: Packet>(v: &T, mut w: &mut dyn BufMut) -> Result<(), pdl_runtime::EncodeError> {
+    v.encode(&mut w)
+}
+
 fn send_laws<T: Packet + Debug + Clone + PartialEq + Default>(v: &T, kind: &WriterKind, prior: &[u8]) -> SendOutcome {
     // required methods first: a panic here is not a law of the derived methods failing
     let n = match catch_unwind(AssertUnwindSafe(|| v.encoded_len())) {
@@ -209,12 +216,12 @@ fn send_laws<T: Packet + Debug + Clone + PartialEq + Default>(v: &T, kind: &Writ
         match kind {
             WriterKind::Vec => {
                 let mut w: Vec<u8> = prior.to_vec();
-                let res = v.encode(&mut w);
+                let res = enc(v, &mut w);
                 Done { res, prior_after: w[..prior.len().min(w.len())].to_vec(), appended: w.get(prior.len()..).unwrap_or(&[]).to_vec(), room: None, crossed: 0, protocol_error: None }
             }
             WriterKind::BytesMut => {
                 let mut w = BytesMut::from(prior);
-                let res = v.encode(&mut w);
+                let res = enc(v, &mut w);
                 Done { res, prior_after: w[..prior.len().min(w.len())].to_vec(), appended: w.get(prior.len()..).unwrap_or(&[]).to_vec(), room: None, crossed: 0, protocol_error: None }
             }
             WriterKind::SliceExact | WriterKind::SliceSlack(_) => {
@@ -224,7 +231,7 @@ fn send_laws<T: Packet + Debug + Clone + PartialEq + Default>(v: &T, kind: &Writ
                 let (head, tail) = store.split_at_mut(prior.len());
                 let mut w: &mut [u8] = tail;
                 let before = w.len();
-                let res = v.encode(&mut w);
+                let res = enc(v, &mut w);
                 let written = before - w.len();
                 let head = head.to_vec();
                 Done { res, prior_after: head, appended: store[prior.len()..prior.len() + written].to_vec(), room: Some(n + slack), crossed: 0, protocol_error: None }
@@ -233,7 +240,7 @@ fn send_laws<T: Packet + Debug + Clone + PartialEq + Default>(v: &T, kind: &Writ
                 let mut store: Vec<u8> = prior.to_vec();
                 let res = {
                     let mut w = (&mut store).limit(n);
-                    v.encode(&mut w)
+                    enc(v, &mut w)
                 };
                 Done { res, prior_after: store[..prior.len().min(store.len())].to_vec(), appended: store.get(prior.len()..).unwrap_or(&[]).to_vec(), room: Some(n), crossed: 0, protocol_error: None }
             }
@@ -248,7 +255,7 @@ fn send_laws<T: Packet + Debug + Clone + PartialEq + Default>(v: &T, kind: &Writ
                     let before = a.len();
                     let res = {
                         let mut w = (&mut a).chain_mut(&mut second);
-                        v.encode(&mut w)
+                        enc(v, &mut w)
                     };
                     (res, before - a.len())
                 };
@@ -262,7 +269,7 @@ fn send_laws<T: Packet + Debug + Clone + PartialEq + Default>(v: &T, kind: &Writ
                 let mut c: Vec<u8> = Vec::new();
                 let res = {
                     let mut w = (&mut a).chain_mut(&mut b).chain_mut(&mut c);
-                    v.encode(&mut w)
+                    enc(v, &mut w)
                 };
                 let mut appended = a.get(prior.len()..).unwrap_or(&[]).to_vec();
                 appended.extend_from_slice(&b);
@@ -280,7 +287,7 @@ fn send_laws<T: Packet + Debug + Clone + PartialEq + Default>(v: &T, kind: &Writ
                 if matches!(cap, Cap::Unbounded) {
                     w.report_unbounded = true;
                 }
-                let res = v.encode(&mut w);
+                let res = enc(v, &mut w);
                 Done {
                     res,
                     prior_after: w.prior().to_vec(),
